@@ -17,7 +17,6 @@ package message
 import (
 	"bytes"
 	"fmt"
-	"sync/atomic"
 )
 
 // UnsubscribeMessage is a UNSUBSCRIBE packet, sent by the Client to the Server, to unsubscribe from topics.
@@ -187,7 +186,7 @@ func (m *UnsubscribeMessage) Encode(dst []byte) (int, error) {
 	}
 
 	if m.PacketID() == 0 {
-		m.SetPacketID(uint16(atomic.AddUint64(&gPacketID, 1) & 0xffff))
+		m.SetPacketID(nextPacketID())
 		//this.packetId = uint16(atomic.AddUint64(&gPacketId, 1) & 0xffff)
 	}
 
